@@ -386,6 +386,32 @@ def _tb(x):
     return x != 0
 
 
+# ----------------------------------------------------------------------------- order / search
+@model('.searchsorted', 'numpy.searchsorted')
+def _searchsorted(ex, st, args, kwargs, node):
+    """assumed: for non-decreasing a, r = searchsorted(a, v, side) satisfies 0<=r<=n,
+    a[j] < v for j < r and a[j] >= v for j >= r  (side='left'; <=, > for 'right').
+    The sortedness of `a` is a call-site obligation (safe.sorted)."""
+    c = ex.c
+    a = arr(ex, st, args[0])
+    v = args[1]
+    side = kwargs.get('side', args[2] if len(args) > 2 else 'left')
+    if a is None or a.ndim != 1 or side not in ('left', 'right'):
+        raise Unsupported('searchsorted form')
+    if arr(ex, st, v) is not None:
+        raise Unsupported('searchsorted with array of values')
+    n = a.shape[0]
+    if 'sorted' in ex.safety:
+        ex.oblige('safe.sorted', st, c.Forall(0, _minus1(n), lambda i: a.elem((i,)) <= a.elem((i + 1,))), node)
+    r = c.fresh('ss', INT)
+    v = to_real(v) if a.kind == 'real' else v
+    lt = (lambda x: x < v) if side == 'left' else (lambda x: x <= v)
+    st.assume(r >= 0, r <= to_int(n))
+    st.assume(c.Forall(0, r, lambda j: lt(a.elem((j,)))))
+    st.assume(c.Forall(r, n, lambda j: z3.Not(lt(a.elem((j,))))))
+    return r
+
+
 # ----------------------------------------------------------------------------- builtins
 @model('builtins.len')
 def _len(ex, st, args, kwargs, node):
